@@ -137,6 +137,12 @@ impl HashSet {
                 })?;
             }
 
+            if coupons.iter().filter(|&&c| c != COUPON_EMPTY).count() != coupon_count {
+                return Err(Error::deserial(
+                    "coupon count does not match the occupied slots of the table",
+                ));
+            }
+
             Ok(Self {
                 container: Container::from_coupons(
                     lg_arr,
